@@ -181,3 +181,41 @@ Proof.
   unfold flt. rewrite (Bcompare_swap 53 1024 a b).
   destruct (Bcompare 53 1024 a b) as [[| |]|]; simpl; congruence.
 Qed.
+
+(* ---- equality modulo the sign of zero ---- *)
+Lemma er_le_antisym a b : er_le a b -> er_le b a -> a = b.
+Proof. destruct a, b; simpl; try tauto. intros H1 H2. f_equal. lra. Qed.
+
+Lemma fle_antisym_ext a b : nn a -> nn b -> fle a b = true -> fle b a = true -> ext a = ext b.
+Proof.
+  intros Ha Hb H1 H2. apply fle_ext in H1; auto. apply fle_ext in H2; auto. apply er_le_antisym; assumption.
+Qed.
+
+Lemma finite_ext a : f_finite a = true -> ext a = Fin (B2R 53 1024 a).
+Proof. destruct a; try discriminate; reflexivity. Qed.
+
+Lemma feq_zero_iff a : f_finite a = true -> (feq a (fb 0) = true <-> B2R 53 1024 a = 0).
+Proof.
+  intro Ha. rewrite fzero_eq. unfold feq.
+  rewrite (Bcompare_correct 53 1024 a (B754_zero 53 1024 false) Ha (eq_refl true)). simpl.
+  destruct (Rcompare_spec (B2R 53 1024 a) 0); split; intro H0; try reflexivity; try discriminate; lra.
+Qed.
+
+Lemma finite_nonzero_strict a : f_finite a = true -> B2R 53 1024 a <> 0 -> is_finite_strict 53 1024 a = true.
+Proof. destruct a; try discriminate; simpl; intros _ H0; [exfalso; apply H0; reflexivity|reflexivity]. Qed.
+
+(* two finite floats with the same real value have the same bits, except +0 / -0 *)
+Lemma same_value_same_bits a b : f_finite a = true -> f_finite b = true ->
+  B2R 53 1024 a = B2R 53 1024 b ->
+  (if feq a (fb 0) then 0%Z else fbits a) = (if feq b (fb 0) then 0%Z else fbits b).
+Proof.
+  intros Ha Hb E.
+  destruct (feq a (fb 0)) eqn:Ea, (feq b (fb 0)) eqn:Eb; try reflexivity.
+  - apply (feq_zero_iff a Ha) in Ea. exfalso.
+    assert (feq b (fb 0) = true) by (apply (feq_zero_iff b Hb); lra). congruence.
+  - apply (feq_zero_iff b Hb) in Eb. exfalso.
+    assert (feq a (fb 0) = true) by (apply (feq_zero_iff a Ha); lra). congruence.
+  - assert (Na : B2R 53 1024 a <> 0) by (intro H0; apply (feq_zero_iff a Ha) in H0; congruence).
+    assert (Nb : B2R 53 1024 b <> 0) by (intro H0; apply (feq_zero_iff b Hb) in H0; congruence).
+    f_equal. apply (B2R_inj 53 1024); auto using finite_nonzero_strict.
+Qed.
